@@ -238,11 +238,14 @@ def pair_worker(task):
                 bad.append(("as_quantity-result", a.__name__, b.__name__,
                             type(r).__name__, float(r)))
             # add / sub / ordering across types
-            x = mk(a, 2.0, None)
-            y = mk(b, 1.0, None)
-            for name, op in (("+", operator.add), ("-", operator.sub),
-                             ("<", operator.lt), ("<=", operator.le),
-                             (">", operator.gt), (">=", operator.ge)):
+            # (zero is a quantity like any other: 0 m + 0 s is refused too)
+            for vx, vy in ((2.0, 1.0), (2.0, 0.0), (0.0, 1.0), (0.0, 0.0),
+                           (2.0, -0.0), (-0.0, 2.0), (2, 0)):
+              x = mk(a, vx, None)
+              y = mk(b, vy, None)
+              for name, op in (("+", operator.add), ("-", operator.sub),
+                               ("<", operator.lt), ("<=", operator.le),
+                               (">", operator.gt), (">=", operator.ge)):
                 n += 1
                 try:
                     r = op(x, y)
@@ -255,7 +258,7 @@ def pair_worker(task):
                     if raised is not False:
                         bad.append(("same-type-op-raised", a.__name__, name))
                     else:
-                        want = op(2.0, 1.0)
+                        want = op(vx, vy)
                         if name in "+-":
                             if type(r) is not a or float(r) != want:
                                 bad.append(("same-type-arith", a.__name__,
@@ -265,7 +268,9 @@ def pair_worker(task):
                                         r, want))
                 elif raised is not True:
                     bad.append(("mixed-type-op-accepted", a.__name__, name,
-                                b.__name__, raised))
+                                b.__name__, raised, vx, vy))
+            x = mk(a, 2.0, None)
+            y = mk(b, 1.0, None)
             if a is not b:
                 n += 1
                 if (x == y) is not False or (x != y) is not True:
@@ -418,6 +423,67 @@ def default_unit_checks(U):
     return bad
 
 
+def power_chains(U):
+    """products of many factors: the exponents of the result are the sums,
+    however large they grow (no table and no unit text is involved), and
+    dividing the factors out again ends at a dimensionless value"""
+    bad = []
+    n = 0
+    SI = U.SI
+    bases = [U.Length, U.Mass, U.Duration, U.ElectricalCurrent, U.Temperature,
+             U.AmountOfSubstance, U.LuminousIntensity, U.Angle, U.Speed,
+             U.Force, U.Frequency]
+    for q in bases:
+        base = rsig(q.__name__)
+        for first in ("quantity", "generic"):
+            x = q(2.0)
+            p = x if first == "quantity" else x.asSI()
+            val = 2.0
+            try:
+                for k in range(2, 15):
+                    p = p * x
+                    val *= 2.0
+                    n += 1
+                    if sig_of(p, SI) != [k * e for e in base] or \
+                            float(p) != val:
+                        bad.append(("power-chain", q.__name__, first, "*", k,
+                                    sig_of(p, SI), float(p)))
+                        break
+                inv = (1.0 / x) if first == "quantity" else \
+                    (SI(1.0, "") / x.asSI())
+                for k in range(13, -3, -1):
+                    p = p / x if k % 2 else p * inv
+                    val /= 2.0
+                    n += 1
+                    if sig_of(p, SI) != [k * e for e in base] or \
+                            float(p) != val:
+                        bad.append(("power-chain", q.__name__, first, "/", k,
+                                    sig_of(p, SI), float(p)))
+                        break
+                # two large powers against each other
+                a = b = x.asSI()
+                for _ in range(6):
+                    a = a * x
+                for _ in range(11):
+                    b = b * x
+                n += 3
+                r = b / a
+                if sig_of(r, SI) != [5 * e for e in base] or float(r) != 32.0:
+                    bad.append(("power-quotient", q.__name__, sig_of(r, SI),
+                                float(r)))
+                try:
+                    a + b
+                    bad.append(("powers-7-and-12-added", q.__name__))
+                except (ValueError, TypeError):
+                    pass
+                if a == b * (1.0 / 32.0):
+                    bad.append(("powers-7-and-12-compare-equal", q.__name__))
+            except Exception as ex:  # noqa
+                bad.append(("power-chain-raised", q.__name__, first,
+                            type(ex).__name__, str(ex)[:80]))
+    return n, bad
+
+
 def user_subclass_checks(U):
     SI = U.SI
     bad = []
@@ -529,6 +595,9 @@ def si_worker(task):
         # its own signature (N.m/rad on top of Torque): used after the parent
         bad += user_subclass_checks(U)
         bad += default_unit_checks(U)
+        n_, b_ = power_chains(U)
+        n += n_
+        bad += b_
         # the SI unit text of every named quantity class, in every format,
         # names the signature of that class
         for q in U.QUANTITIES:
